@@ -18,6 +18,7 @@ RT_SRCS := simrt/simrt.cpp simrt/tsan_shim.cpp simrt/san_options.cpp simrt/race.
 RTX_sim-default := simrt/race_free.cpp
 RTX_sim-tiny := simrt/race_free.cpp
 RTX_fine-default := simrt/race_free.cpp
+RTX_fine-tiny := simrt/race_free.cpp
 RTX_asan-default :=
 RTX_asan-nosba :=
 
@@ -25,20 +26,22 @@ ASANFLAGS := -fsanitize=address,undefined -fno-sanitize-recover=all -fno-omit-fr
              -fsanitize-coverage=trace-pc-guard -fsanitize-coverage-ignorelist=simrt/cov_ignorelist.txt
 # fine-*: the tsan pass also instruments plain memory accesses (they become simulation points)
 FINEPASS := -fno-inline -fsanitize=thread -mllvm -tsan-instrument-func-entry-exit=0 -mllvm -tsan-instrument-memintrinsics=0
-VARIANTS := sim-default sim-tiny fine-default asan-default asan-nosba
+VARIANTS := sim-default sim-tiny fine-default fine-tiny asan-default asan-nosba
 FLAGS_sim-default := $(TSANPASS)
 FLAGS_sim-tiny := $(TSANPASS) $(TINY)
 FLAGS_fine-default := $(FINEPASS)
+FLAGS_fine-tiny := $(FINEPASS) $(TINY)
 FLAGS_asan-default := $(ASANFLAGS)
 FLAGS_asan-nosba := $(ASANFLAGS) $(TINY) -DDISPENSO_NO_SMALL_BUFFER_ALLOCATOR
 LINK_sim-default :=
 LINK_sim-tiny :=
 LINK_fine-default :=
+LINK_fine-tiny :=
 LINK_asan-default := -fsanitize=address,undefined
 LINK_asan-nosba := -fsanitize=address,undefined
 
 all: $(foreach v,$(VARIANTS),$(B)/$(v)/simcheck)
-sim: $(B)/sim-default/simcheck $(B)/sim-tiny/simcheck $(B)/fine-default/simcheck
+sim: $(B)/sim-default/simcheck $(B)/sim-tiny/simcheck $(B)/fine-default/simcheck $(B)/fine-tiny/simcheck
 
 define VARIANT_RULES
 $(B)/$(1)/disp/%.o: $(REPO)/dispenso/%.cpp
